@@ -302,6 +302,11 @@ func c14Hs(tr *verifh.T, toks []string) {
 		}
 		return def
 	}
+	fillN, ferr := strconv.Atoi(get("fill", "85"))
+	if ferr != nil || fillN < 0 || fillN > 255 {
+		return
+	}
+	fill := byte(fillN)
 	ser := func(bitsTok, bytesTok string) ([]byte, bool) {
 		bits, err1 := strconv.ParseUint(bitsTok, 10, 64)
 		n, err2 := strconv.Atoi(bytesTok)
@@ -314,7 +319,7 @@ func c14Hs(tr *verifh.T, toks []string) {
 		b := make([]byte, 8+n)
 		binary.BigEndian.PutUint64(b, bits)
 		for i := 8; i < len(b); i++ {
-			b[i] = 0x55
+			b[i] = fill
 		}
 		return b, true
 	}
@@ -359,7 +364,12 @@ func c14Hs(tr *verifh.T, toks []string) {
 	case herr != nil:
 		obs = []string{"err"}
 	default:
-		obs = []string{"ok", fmt.Sprintf("len=%d", hs.bitfield.Len())}
+		// the bits the decoder left set, whatever the declared length (what addPeer will iterate over)
+		cnt := 0
+		for i, e := hs.bitfield.NextSet(0); e; i, e = hs.bitfield.NextSet(i + 1) {
+			cnt++
+		}
+		obs = []string{"ok", fmt.Sprintf("len=%d", hs.bitfield.Len()), fmt.Sprintf("cnt=%d", cnt)}
 	}
 	obs = append(obs, "alloc="+c14AllocClass(alloc))
 	tr.One(toks, obs...)
@@ -390,6 +400,10 @@ func TestVerif_C14Handshake(t *testing.T) {
 	bytesVals := []int{-1, 0, 1, 7, 8, 9, 16, 512}
 	for _, bits := range bitsVals {
 		for _, n := range bytesVals {
+			for _, fill := range []int{0, 255} {
+				c14Hs(tr, []string{"pid=ok", "ih=ok", "name=ok", "body=1", fmt.Sprintf("bits=%d", bits), fmt.Sprintf("bytes=%d", n), "rbits=-", "rbytes=0", fmt.Sprintf("fill=%d", fill)})
+				tr.Count("bitfield_fill_cases", 1)
+			}
 			c14Hs(tr, []string{"pid=ok", "ih=ok", "name=ok", "body=1", fmt.Sprintf("bits=%d", bits), fmt.Sprintf("bytes=%d", n), "rbits=-", "rbytes=0"})
 			c14Hs(tr, []string{"pid=ok", "ih=ok", "name=ok", "body=1", "bits=3", "bytes=8", fmt.Sprintf("rbits=%d", bits), fmt.Sprintf("rbytes=%d", n)})
 			tr.Count("bitfield_cases", 2)
@@ -406,7 +420,8 @@ func TestVerif_C14Handshake(t *testing.T) {
 			bits = uint64(rnd.Intn(600))
 		}
 		toks := []string{"pid=" + rnd.Pick("ok", "ok", "ok", "bad"), "ih=" + rnd.Pick("ok", "ok", "ok", "bad"), "name=" + rnd.Pick("ok", "ok", "ok", "bad"),
-			"body=" + rnd.Pick("1", "1", "1", "0"), fmt.Sprintf("bits=%d", bits), fmt.Sprintf("bytes=%d", rnd.Intn(80)-1)}
+			"body=" + rnd.Pick("1", "1", "1", "0"), fmt.Sprintf("bits=%d", bits), fmt.Sprintf("bytes=%d", rnd.Intn(80)-1),
+			"fill=" + rnd.Pick("0", "85", "255", "1", "128")}
 		if rnd.Chance(1, 3) {
 			toks = append(toks, fmt.Sprintf("rbits=%d", bitsVals[rnd.Intn(len(bitsVals))]), fmt.Sprintf("rbytes=%d", rnd.Intn(40)-1))
 		} else {
